@@ -313,10 +313,12 @@ impl ParallelCacheState {
             // If it is marked as selfdestructed inside revm
             // we need to changed state to destroyed.
             if is_destructed {
-                self.storage.remove(&address);
+                // Publish the status before clearing cached slots; see `db_storage`.
+                let transition = self.get_account_mut(address).selfdestruct();
                 #[cfg(feature = "verif")]
                 crate::verif::point(crate::verif::pt::PS_DESTROY_GAP, 0);
-                return self.get_account_mut(address).selfdestruct();
+                self.storage.remove(&address);
+                return transition;
             }
 
             // Note: it can happen that created contract get selfdestructed in same block
@@ -329,11 +331,11 @@ impl ParallelCacheState {
             // is not possible because CREATE2 is introduced later.
             if is_created {
                 let info = account.info;
-                self.storage.remove(&address);
-                #[cfg(feature = "verif")]
-                crate::verif::point(crate::verif::pt::PS_DESTROY_GAP, 0);
                 let (transition, changed_slots) =
                     self.get_account_mut(address).newly_created(info.clone(), changed_storage);
+                #[cfg(feature = "verif")]
+                crate::verif::point(crate::verif::pt::PS_DESTROY_GAP, 0);
+                self.storage.remove(&address);
                 self.contracts.entry(info.code_hash).or_insert_with(|| info.code.clone().unwrap());
                 (Some(transition), Some(changed_slots))
             }
@@ -345,11 +347,12 @@ impl ParallelCacheState {
             // pre-existing empty accounts are unmarked as touched. Therefore, an account that
             // reaches the commit layer as touched, empty, and not created must be cleared.
             else if is_empty {
-                self.storage.remove(&address);
+                drop(changed_storage);
+                let transition = self.get_account_mut(address).touch_empty_eip161();
                 #[cfg(feature = "verif")]
                 crate::verif::point(crate::verif::pt::PS_DESTROY_GAP, 0);
-                drop(changed_storage);
-                (self.get_account_mut(address).touch_empty_eip161(), None)
+                self.storage.remove(&address);
+                (transition, None)
             } else {
                 let (transition, changed_slots) =
                     self.get_account_mut(address).change(account.info, changed_storage);
@@ -573,10 +576,7 @@ impl<'a, DB: DatabaseRef> ParallelStateView<'a, DB> {
         }
         // As in revm State::storage_ref, the account is not guaranteed to be cached. In that case,
         // the backing database remains the source of truth.
-        let is_storage_known =
-            self.cache.accounts.get(&address).is_some_and(|account| {
-                account.status.is_storage_known() || account.account.is_none()
-            });
+        let is_storage_known = self.is_storage_known(address);
 
         let value = if is_storage_known {
             U256::ZERO
@@ -585,17 +585,39 @@ impl<'a, DB: DatabaseRef> ParallelStateView<'a, DB> {
         };
         #[cfg(feature = "verif")]
         crate::verif::point(crate::verif::pt::PS_STORAGE_FILL, 0);
+        // Commit may have destroyed, cleared, or (re-)created the account while the database was
+        // being read. It publishes the new account status before it clears the cached slots, so
+        // re-checking the status while holding the storage entry decides whether the fetched
+        // pre-transition value may still be cached; otherwise it would outlive the clearing.
         let value = if let Some(slots) = self.cache.storage.get(&address) {
+            if !is_storage_known && self.is_storage_known(address) {
+                return Ok(U256::ZERO);
+            }
             *slots.entry(index).or_insert(value).value()
         } else {
             match self.cache.storage.entry(address) {
-                Entry::Occupied(entry) => *entry.get().entry(index).or_insert(value).value(),
+                Entry::Occupied(entry) => {
+                    if !is_storage_known && self.is_storage_known(address) {
+                        return Ok(U256::ZERO);
+                    }
+                    *entry.get().entry(index).or_insert(value).value()
+                }
                 Entry::Vacant(entry) => {
+                    if !is_storage_known && self.is_storage_known(address) {
+                        return Ok(U256::ZERO);
+                    }
                     *entry.insert(Default::default()).entry(index).or_insert(value).value()
                 }
             }
         };
         Ok(value)
+    }
+
+    fn is_storage_known(self, address: Address) -> bool {
+        self.cache
+            .accounts
+            .get(&address)
+            .is_some_and(|account| account.status.is_storage_known() || account.account.is_none())
     }
 
     fn db_block_hash(self, number: u64) -> Result<B256, DB::Error> {
